@@ -75,6 +75,9 @@ def random_steps(rng, n, multi):
     return steps
 
 
+CRASHES = []
+
+
 def run_session(ctx, fzf, sid, cfg, items, steps, width, height):
     s = tmuxdrv.Session(ctx, fzf, cfg.args(), input_data="".join(i + "\n" for i in items), width=width, height=height)
     try:
@@ -102,6 +105,14 @@ def run_session(ctx, fzf, sid, cfg, items, steps, width, height):
                            any(e["ev"] == "term.exit" for e in tr), timeout=90 if kind == "post" else 8,
                            what="loop %d after %s %r" % (loops, kind, arg))
             except Infra:
+                if s.exited():
+                    # the program died in the middle of an action (panic): that is an observation about fzf, not about the harness
+                    try:
+                        status = int(open(s.status_path).read().strip())
+                    except Exception:
+                        status = -1
+                    CRASHES.append({"sid": sid, "step": [kind, arg], "status": status, "screen": "\n".join(s.capture())[-1500:]})
+                    break
                 if kind == "post":
                     raise
                 loops -= 1      # a key (sequence) the terminal layer swallowed without handing an event to the loop: no transition
@@ -164,6 +175,18 @@ def run(ctx):
     with ThreadPoolExecutor(max_workers=8) as ex:
         for ix, tr in ex.map(do, range(len(jobs))):
             traces[ix] = tr
+    for cr in list(CRASHES)[:3]:
+        cfg, items, steps, w, h = jobs[cr["sid"]]
+        n0 = len(CRASHES)
+        run_session(ctx, fzf, cr["sid"], cfg, items, steps, w, h)       # reproduce
+        if len(CRASHES) == n0:
+            raise Infra("session %d: fzf died during %r but not when re-run" % (cr["sid"], cr["step"]))
+        ctx.violation("session %d (%s): fzf terminated (status %s) while performing %r: the action did not take the state to the "
+                      "prescribed successor\n%s" % (cr["sid"], cfg.describe(), cr["status"], cr["step"], cr["screen"][-600:]),
+                      {"session": {"cfg": {"layout": cfg.layout, "cycle": cfg.cycle, "multi": cfg.multi, "scroll_off": cfg.scroll_off,
+                                           "inputless": cfg.inputless, "disabled": cfg.disabled, "extra": cfg.extra, "track": cfg.track},
+                                   "items": items, "steps": steps, "width": w, "height": h}, "crash": cr})
+    del CRASHES[:]
     records = []
     for ix in sorted(traces):
         records += sessions.transitions(traces[ix], jobs[ix][0], ix, jobs[ix][1])
